@@ -34,6 +34,7 @@ func runC02(l *core.Ledger) {
 	l.Rule("C02-T5", "every path from function entry to the first blocking select passes the exhaustion test (no wait when no node is targeted)")
 	l.Rule("C02-T6", "Async.c closed only by a defer registered first in handleAsyncCall; Async.reply/err written only there, immediately before return; Get reads them only after receiving on c; Done only polls c")
 	l.Rule("C02-T7", "QuorumCallError.Is returns the comparison of the cause field with the target (or the target's cause)")
+	l.Rule("C02-T8", "each targeted node answers a call at most once and at least once: deliver-then-delete under one hold of the router lock, error deliveries delete the router, a dequeued request is sent or answered, a stream error fails every pending call (C05-M3/M4, C07-E3/E4/E6 re-run)")
 
 	loops := findReplyLoops(l, r, "C02-T1")
 	if !l.Floor("C02-T1", len(loops), 3, "reply loops (QuorumCall, handleAsyncCall, handleCorrectableCall)") {
@@ -45,6 +46,16 @@ func runC02(l *core.Ledger) {
 	c02T4(l, r)
 	c02T6(l, r)
 	c02T7(l, r)
+	// T8: "every targeted node has answered" and "the numbers add up" presuppose
+	// that each (node, call) answers at most once and that every request is
+	// answered: the routing rules of C05/C07 are necessary conditions here too
+	if rm := buildRouterModel(l, r, "C02-T8"); rm != nil {
+		l.With(map[string]string{"C05-M4": "C02-T8"}, func() { checkDeliverDelete(l, r, rm, "C05-M4", false) })
+		l.With(map[string]string{"C07-E6": "C02-T8"}, func() { checkDeliverDelete(l, r, rm, "C07-E6", true) })
+		l.With(map[string]string{"C05-M3": "C02-T8"}, func() { checkRouterLocks(l, r, rm, "C05-M3") })
+	}
+	l.With(map[string]string{"C07-E3": "C02-T8"}, func() { c07E3(l, r) })
+	l.With(map[string]string{"C07-E4": "C02-T8"}, func() { c07E4(l, r) })
 }
 
 // completion is a place where a reply loop fixes the call's outcome.
@@ -265,7 +276,7 @@ func c02Loop(l *core.Ledger, r *rt, rl *replyLoop) {
 				}
 			}
 			return false
-		}, sx.Query{BlockNode: func(n sx.Node) bool { return n == selNode }}); again {
+		}, sx.Query{BlockNode: rl.isRecvSelect}); again {
 			l.Bad("C02-T2", fmt.Sprintf("%s/err-append%d/once", key, i), a.Pos(), "one received error can be appended to the error slice more than once: a failing node contributes several errors and exhaustion is declared too early")
 		}
 	}
@@ -279,7 +290,7 @@ func c02Loop(l *core.Ledger, r *rt, rl *replyLoop) {
 			}
 			return false
 		}
-		if _, must := sx.MustPassThrough(sx.Node{B: e.To, I: -1}, isApp, func(n sx.Node) bool { return n == selNode || sx.IsExit(n) }); !must {
+		if _, must := sx.MustPassThrough(sx.Node{B: e.To, I: -1}, isApp, func(n sx.Node) bool { return rl.isRecvSelect(n) || sx.IsExit(n) }); !must {
 			l.Bad("C02-T2", key+"/err-dropped", e.From.Instrs[len(e.From.Instrs)-1].Pos(), "a node error can be dropped without being counted: the call then waits for an answer that already arrived")
 		}
 	}
